@@ -217,7 +217,7 @@ def rule_mut(ctx, prop: str) -> RuleResult:
         for f in sorted(funcs, key=lambda f: f.qualname.count(".")):
             env = {}
             if f.outer is not None and id(f.outer) in results:
-                env = results[id(f.outer)].nested_env.get(f.name, {})
+                env = results[id(f.outer)].nested_env.get(f.node.name, {})
             an = Taint(seq, summ.param.get(id(f), {}), summ, f, env)
             Engine(an).run(f.node)
             results[id(f)] = an
